@@ -488,6 +488,7 @@ def _call_on_all_paths_from_site(F, callee, argidx, argpred, ipred=None):
             if i['op'] == 'ret':
                 return 'ret', i
         return 'go', None
+    ended = False        # some path from the site ends: in the wanted call, or in a trap
     for m in ms:
         b = F.block_of[m['id']]
         r, i = scan(b, F.order[m['id']])
@@ -495,6 +496,10 @@ def _call_on_all_paths_from_site(F, callee, argidx, argpred, ipred=None):
             return False, 'a ret (line %s) is reached from the site without a call to %s' % (i.get('line'), callee)
         if r == 'go':
             st.extend(F.succ[b])
+            if bid[b]['insts'][-1]['op'] == 'unreachable':
+                ended = True
+        else:
+            ended = True
     while st:
         b = st.pop()
         if b in seen:
@@ -505,6 +510,12 @@ def _call_on_all_paths_from_site(F, callee, argidx, argpred, ipred=None):
             return False, 'a ret (line %s) is reached from the site without a call to %s' % (i.get('line'), callee)
         if r == 'go':
             st.extend(F.succ[b])
+            if bid[b]['insts'][-1]['op'] == 'unreachable':
+                ended = True
+        else:
+            ended = True
+    if not ended:
+        return False, 'from the site neither a ret nor a call to %s is reachable: under the hypothesis the function loops forever' % callee
     return True, 'every path from the site to a ret calls %s' % callee
 
 
